@@ -1,153 +1,108 @@
 /-
   DDProofs.AutoProofs — the invariant of the autoref layer and its preservation.
 
-  `Counts m ext`  : the count of every stored node is `indeg + ext`, and `_ref` has
-                    no other keys  (`ext` = references held from outside the table)
-  `AInv a`        : `Inv a.m`, every live handle points to a stored node, and
-                    `Counts a.m (live handles on the node + 1 for the terminal)`.
+  `RefExact m ext` (DDProofs.RefCount) : the count of every stored node is
+                    `indeg + ext (+1 for the terminal)`, `_ref` has no other keys
+                    (`ext` = references held from outside the table)
+  `AInv off a`    : `Inv a.m`, every live handle points to a stored node,
+                    `RefExact a.m (number of live handles on the node)`, and — when
+                    `off = true` — dynamic reordering is not enabled (`lastLen = none`).
+                    `off = false` is the invariant for every configuration.
 
-  Proved outright: registry bookkeeping (`wrap`, `wrapF`, `drop`), effects of
-  `incref` / `decref` on the count equation, `drop ∘ wrap = id` on counts, the
-  operations whose core part is trivial (`true/false`, `_add_int`, `copy_bdd` into
-  the same manager, `low/high`).
-  Conditional on explicit hypotheses about the core operations (`CoreKeeps`,
-  `CoreOpSpec`, `GcSpec` — to be discharged by the proofs about `DD.ite`,
-  `DD.collectGarbage`, `DD.reorder`, …): every other autoref method, histories,
-  shutdown.
+  Proved outright: registry bookkeeping (`wrap`, `wrapF`, `drop`), `drop ∘ wrap = id` on
+  counts, the operations whose core part is trivial, the discharge of the hypotheses for
+  `ite`, `apply` (all aliases that do not quantify), `var`, `collect_garbage`, shutdown
+  when reordering is not enabled (DDProofs.AutoCore).
+  Conditional on explicit hypotheses about the remaining core operations (`CoreKeeps`).
 -/
 import DDProofs.AutoLedger
-import DDProofs.Inv
+import DDProofs.GcSpec
+import DDProofs.DynProofs
 open Std
 
 namespace DD
 
-/-! ### denotation by variable *name* (stable under reordering) -/
+variable {off : Bool}
 
-/-- the assignment to levels induced by an assignment to names -/
-def envOf (t : Tbl) (asg : String → Bool) : Asg := fun i =>
-  match t.l2v[i]? with
-  | some v => asg v
-  | none => false
+/-! ### the count equation (`RefExact`) -/
 
-/-- denotation of a reference as a function of variable names -/
-def denN (t : Tbl) (u : Int) (asg : String → Bool) : Bool := den t u (envOf t asg)
+theorem RefExact.extCongr {m : Mgr} {ext ext' : Nat → Nat} (h : RefExact m ext)
+    (he : ∀ k, ext k = ext' k) : RefExact m ext' := by
+  have : ext = ext' := funext he
+  rw [← this]; exact h
 
-/-! ### the count equation -/
-
-/-- `k in self._succ` for a node number -/
-def NMem (t : Tbl) (k : Nat) : Prop := k = 1 ∨ (t.node? k).isSome
-
-instance (t : Tbl) (k : Nat) : Decidable (NMem t k) := by unfold NMem; infer_instance
-
-theorem mem_iff_nmem (t : Tbl) (u : Int) : t.Mem u ↔ NMem t u.natAbs := Iff.rfl
-
-/-- every count is in-degree plus external references; `_ref` has exactly the keys of `_succ` -/
-def Counts (m : Mgr) (ext : Nat → Nat) : Prop :=
-  ∀ k : Nat, m.ref[k]? = if NMem m.tbl k then some (indeg m.tbl k + ext k) else none
-
-theorem Counts.congr {m : Mgr} {ext ext' : Nat → Nat} (h : Counts m ext) (he : ∀ k, ext k = ext' k) :
-    Counts m ext' := by
-  intro k; rw [h k, he k]
-
-theorem Counts.of_mem {m : Mgr} {ext : Nat → Nat} (h : Counts m ext) {u : Int} (hu : m.tbl.Mem u) :
-    m.ref[u.natAbs]? = some (indeg m.tbl u.natAbs + ext u.natAbs) := by
-  rw [h u.natAbs, if_pos ((mem_iff_nmem _ _).mp hu)]
-
-/-- replacing the count table keeps `Inv` as long as the domain does not shrink -/
-theorem Inv.ref_update {m : Mgr} (h : Inv m) (ref' : TreeMap Nat Nat)
-    (hd : ∀ k, m.ref.contains k = true → ref'.contains k = true) : Inv { m with ref := ref' } :=
-  ⟨h.wf, h.pred, h.freeGe, h.free, hd 1 h.refOne, fun u n hn => hd u (h.refDom u n hn), h.cache⟩
-
-theorem contains_insert_of_contains (t : TreeMap Nat Nat) (j c k : Nat) (h : t.contains k = true) :
-    (t.insert j c).contains k = true := by
-  rw [TreeMap.contains_insert]; simp [h]
-
-/-- `incref` under the count equation: succeeds, touches only `_ref`, one more external reference -/
-theorem incref_spec (m : Mgr) (ext : Nat → Nat) (u : Int) (hi : Inv m) (hc : Counts m ext)
-    (hu : m.tbl.Mem u) :
-    ∃ m', incref u m = (.ok (), m') ∧ m'.tbl = m.tbl ∧ Inv m' ∧
-      Counts m' (fun k => ext k + (if u.natAbs = k then 1 else 0)) := by
-  have hr := hc.of_mem hu
-  refine ⟨{ m with ref := m.ref.insert u.natAbs (indeg m.tbl u.natAbs + ext u.natAbs + 1) }, ?_, rfl, ?_, ?_⟩
-  · unfold incref; rw [hr]
-  · exact hi.ref_update _ (fun k hk => contains_insert_of_contains _ _ _ _ hk)
-  · intro k
-    show (m.ref.insert u.natAbs _)[k]? = if NMem m.tbl k then _ else _
-    by_cases hk : k = u.natAbs
-    · subst hk
-      rw [TreeMap.getElem?_insert_self, if_pos ((mem_iff_nmem _ _).mp hu)]
-      simp; omega
-    · rw [getElem?_insert_ne _ _ _ _ hk, hc k]
-      have : ¬ u.natAbs = k := fun h => hk h.symm
-      simp [this]
-
-/-- `decref` of a reference that is held from outside: succeeds, one external reference less -/
-theorem decref_spec (m : Mgr) (ext : Nat → Nat) (u : Int) (hi : Inv m) (hc : Counts m ext)
-    (hu : m.tbl.Mem u) (hpos : 0 < ext u.natAbs) :
-    ∃ m', decref u m = (.ok (), m') ∧ m'.tbl = m.tbl ∧ Inv m' ∧
-      Counts m' (fun k => ext k - (if u.natAbs = k then 1 else 0)) := by
-  have hr := hc.of_mem hu
-  refine ⟨{ m with ref := m.ref.insert u.natAbs (indeg m.tbl u.natAbs + ext u.natAbs - 1) }, ?_, rfl, ?_, ?_⟩
-  · unfold decref; rw [hr]
-    have : ¬ (indeg m.tbl u.natAbs + ext u.natAbs = 0) := by omega
-    simp only [if_neg this]
-  · exact hi.ref_update _ (fun k hk => contains_insert_of_contains _ _ _ _ hk)
-  · intro k
-    show (m.ref.insert u.natAbs _)[k]? = if NMem m.tbl k then _ else _
-    by_cases hk : k = u.natAbs
-    · subst hk
-      rw [TreeMap.getElem?_insert_self, if_pos ((mem_iff_nmem _ _).mp hu)]
-      simp; omega
-    · rw [getElem?_insert_ne _ _ _ _ hk, hc k]
-      have : ¬ u.natAbs = k := fun h => hk h.symm
-      simp [this]
+/-- every lookup in `_ref` is determined by the count equation -/
+theorem RefExact.lookup {m : Mgr} {ext : Nat → Nat} (h : RefExact m ext) (k : Nat) :
+    m.ref[k]? = if (k = 1 ∨ (m.tbl.node? k).isSome) then
+      some (indeg m.tbl k + ext k + (if k = 1 then 1 else 0)) else none := by
+  by_cases hk : k = 1 ∨ (m.tbl.node? k).isSome
+  · rw [if_pos hk]
+    have : (m.ref[k]?).isSome := (h.dom k).mpr hk
+    obtain ⟨c, hc⟩ := Option.isSome_iff_exists.mp this
+    rw [hc, h.cnt k c hc]
+  · rw [if_neg hk]
+    cases hr : m.ref[k]? with
+    | none => rfl
+    | some c => exact absurd ((h.dom k).mp (by rw [hr]; rfl)) hk
 
 /-! ### the invariant of the autoref layer -/
 
-/-- external references of an `autoref.BDD`: live `Function`s, and the reference that
-`_init_terminal` gives to node 1 -/
-def aext (a : AMgr) (k : Nat) : Nat := hcount a.handles k + (if k = 1 then 1 else 0)
+/-- external references of an `autoref.BDD`: the live `Function`s (the reference that
+`_init_terminal` gives to node 1 is accounted for by `RefExact` itself) -/
+def hext (a : AMgr) : Nat → Nat := fun k => hcount a.handles k
 
-structure AInv (a : AMgr) : Prop where
+/-- `off = true` : dynamic reordering is not enabled -/
+def ModeOK (off : Bool) (m : Mgr) : Prop := off = true → m.lastLen = none
+
+structure AInv (off : Bool) (a : AMgr) : Prop where
   inv : Inv a.m
   hmem : ∀ (h : Nat) (u : Int), a.handles[h]? = some u → a.m.tbl.Mem u
-  counts : Counts a.m (aext a)
+  counts : RefExact a.m (hext a)
+  mode : ModeOK off a.m
 
-theorem aext_pos_of_handle (a : AMgr) (h : Nat) (u : Int) (hh : a.handles[h]? = some u) :
-    0 < aext a u.natAbs := by
-  have := hcount_pos_of_handle a.handles h u hh
-  unfold aext; omega
+theorem AInv.weaken {a : AMgr} (h : AInv off a) : AInv false a :=
+  ⟨h.inv, h.hmem, h.counts, fun h => nomatch h⟩
+
+theorem hext_pos_of_handle (a : AMgr) (h : Nat) (u : Int) (hh : a.handles[h]? = some u) :
+    0 < hext a u.natAbs := hcount_pos_of_handle a.handles h u hh
 
 /-- `Function(u, bdd)` with a fresh handle id on a stored node -/
-theorem wrapF_spec (a : AMgr) (h : Nat) (u : Int) (hi : AInv a)
+theorem wrapF_spec (a : AMgr) (h : Nat) (u : Int) (hi : AInv off a)
     (hf : a.handles.contains h = false) (hu : a.m.tbl.Mem u) :
-    ∃ a', wrapF h u a = (.ok (), a') ∧ AInv a' ∧ a'.m.tbl = a.m.tbl ∧
+    ∃ a', wrapF h u a = (.ok (), a') ∧ AInv off a' ∧ a'.m.tbl = a.m.tbl ∧
       a'.handles = a.handles.insert h u ∧ a'.foreign = a.foreign := by
-  obtain ⟨m', he, ht, hinv, hcnt⟩ := incref_spec a.m (aext a) u hi.inv hi.counts hu
-  refine ⟨{ a with m := m', handles := a.handles.insert h u }, ?_, ⟨hinv, ?_, ?_⟩, ht, rfl, rfl⟩
+  obtain ⟨c, _, he, hre⟩ := DD.incref_spec a.m (hext a) u hi.counts hu
+  have hinv : Inv { a.m with ref := a.m.ref.insert u.natAbs (c + 1) } := by
+    have := (incref_kept a.m hi.inv u).inv
+    rw [he] at this; exact this
+  refine ⟨{ a with m := { a.m with ref := a.m.ref.insert u.natAbs (c + 1) },
+                   handles := a.handles.insert h u }, ?_, ⟨hinv, ?_, ?_, hi.mode⟩, rfl, rfl, rfl⟩
   · unfold wrapF
     rw [(Mgr.mem_iff a.m u).mpr hu, he]
     rfl
   · intro j v hj
-    show m'.tbl.Mem v
-    rw [ht]
+    show a.m.tbl.Mem v
     by_cases hjh : j = h
     · subst hjh
-      rw [show ({ a with m := m', handles := a.handles.insert j u } : AMgr).handles = a.handles.insert j u from rfl,
-        TreeMap.getElem?_insert_self] at hj
-      cases hj; exact hu
-    · rw [show ({ a with m := m', handles := a.handles.insert h u } : AMgr).handles = a.handles.insert h u from rfl,
-        getElem?_insert_ne _ _ _ _ hjh] at hj
-      exact hi.hmem j v hj
-  · refine hcnt.congr (fun k => ?_)
-    show _ = hcount (a.handles.insert h u) k + _
+      have hj' : (a.handles.insert j u)[j]? = some v := hj
+      rw [TreeMap.getElem?_insert_self] at hj'
+      cases hj'; exact hu
+    · have hj' : (a.handles.insert h u)[j]? = some v := hj
+      rw [getElem?_insert_ne _ _ _ _ hjh] at hj'
+      exact hi.hmem j v hj'
+  · refine hre.extCongr (fun k => ?_)
+    show extInc (hext a) u.natAbs k = hcount (a.handles.insert h u) k
     rw [hcount_insert _ _ _ _ hf]
-    unfold aext; omega
+    unfold extInc hext
+    by_cases hk : k = u.natAbs
+    · subst hk; simp
+    · have : ¬ u.natAbs = k := fun e => hk e.symm
+      simp [hk, this]
 
 /-- `BDD._wrap(u)` -/
-theorem wrap_spec (a : AMgr) (h : Nat) (u : Int) (hi : AInv a)
+theorem wrap_spec (a : AMgr) (h : Nat) (u : Int) (hi : AInv off a)
     (hf : a.handles.contains h = false) (hu : a.m.tbl.Mem u) :
-    ∃ a', wrap h u a = (.ok (), a') ∧ AInv a' ∧ a'.m.tbl = a.m.tbl ∧
+    ∃ a', wrap h u a = (.ok (), a') ∧ AInv off a' ∧ a'.m.tbl = a.m.tbl ∧
       a'.handles = a.handles.insert h u ∧ a'.foreign = a.foreign := by
   obtain ⟨a', he, r⟩ := wrapF_spec a h u hi hf hu
   refine ⟨a', ?_, r⟩
@@ -156,47 +111,52 @@ theorem wrap_spec (a : AMgr) (h : Nat) (u : Int) (hi : AInv a)
   exact he
 
 /-- `Function.__del__` of a live handle -/
-theorem drop_spec (a : AMgr) (h : Nat) (u : Int) (hi : AInv a) (hh : a.handles[h]? = some u) :
-    ∃ a', drop h a = (.ok (), a') ∧ AInv a' ∧ a'.m.tbl = a.m.tbl ∧
+theorem drop_spec (a : AMgr) (h : Nat) (u : Int) (hi : AInv off a) (hh : a.handles[h]? = some u) :
+    ∃ a', drop h a = (.ok (), a') ∧ AInv off a' ∧ a'.m.tbl = a.m.tbl ∧
       a'.handles = a.handles.erase h ∧ a'.foreign = a.foreign := by
   have hu := hi.hmem h u hh
-  obtain ⟨m', he, ht, hinv, hcnt⟩ :=
-    decref_spec a.m (aext a) u hi.inv hi.counts hu (aext_pos_of_handle a h u hh)
-  refine ⟨{ a with m := m', handles := a.handles.erase h }, ?_, ⟨hinv, ?_, ?_⟩, ht, rfl, rfl⟩
+  obtain ⟨c, _, he, hre⟩ := DD.decref_spec a.m (hext a) u hi.counts (hext_pos_of_handle a h u hh)
+  have hinv : Inv { a.m with ref := a.m.ref.insert u.natAbs c } := by
+    have := (decref_kept a.m hi.inv u).inv
+    rw [he] at this; exact this
+  refine ⟨{ a with m := { a.m with ref := a.m.ref.insert u.natAbs c }, handles := a.handles.erase h },
+    ?_, ⟨hinv, ?_, ?_, hi.mode⟩, rfl, rfl, rfl⟩
   · unfold drop
     rw [hh]
     simp only [he]
   · intro j v hj
-    show m'.tbl.Mem v
-    rw [ht]
+    show a.m.tbl.Mem v
     by_cases hjh : j = h
     · subst hjh
-      rw [show ({ a with m := m', handles := a.handles.erase j } : AMgr).handles = a.handles.erase j from rfl,
-        TreeMap.getElem?_erase_self] at hj
-      cases hj
-    · rw [show ({ a with m := m', handles := a.handles.erase h } : AMgr).handles = a.handles.erase h from rfl,
-        getElem?_erase_ne _ _ _ hjh] at hj
-      exact hi.hmem j v hj
-  · refine hcnt.congr (fun k => ?_)
-    show _ = hcount (a.handles.erase h) k + _
+      have hj' : (a.handles.erase j)[j]? = some v := hj
+      rw [TreeMap.getElem?_erase_self] at hj'
+      cases hj'
+    · have hj' : (a.handles.erase h)[j]? = some v := hj
+      rw [getElem?_erase_ne _ _ _ hjh] at hj'
+      exact hi.hmem j v hj'
+  · refine hre.extCongr (fun k => ?_)
+    show extDec (hext a) u.natAbs k = hcount (a.handles.erase h) k
     have := hcount_erase a.handles h u k hh
-    unfold aext
-    by_cases hk : u.natAbs = k <;> simp [hk] at this ⊢ <;> omega
+    unfold extDec hext
+    by_cases hk : k = u.natAbs
+    · subst hk; simp at this ⊢; omega
+    · have hk' : ¬ u.natAbs = k := fun e => hk e.symm
+      simp [hk, hk'] at this ⊢; omega
 
 /-- two states with the same table and the same live handles have the same counts -/
-theorem AInv.ref_eq {a b : AMgr} (ha : AInv a) (hb : AInv b) (ht : b.m.tbl = a.m.tbl)
+theorem AInv.ref_eq {a b : AMgr} (ha : AInv off a) (hb : AInv off b) (ht : b.m.tbl = a.m.tbl)
     (hh : ∀ j : Nat, b.handles[j]? = a.handles[j]?) : ∀ k : Nat, b.m.ref[k]? = a.m.ref[k]? := by
   intro k
-  rw [hb.counts k, ha.counts k, ht]
-  have : aext b k = aext a k := by
-    unfold aext hcount
+  rw [hb.counts.lookup k, ha.counts.lookup k, ht]
+  have : hext b k = hext a k := by
+    unfold hext hcount
     rw [msum_congr a.handles b.handles _ hh]
   rw [this]
 
 /-- creating a `Function` and dropping it again leaves every count (and the table) as it was -/
-theorem drop_wrap_id (a : AMgr) (h : Nat) (u : Int) (hi : AInv a)
+theorem drop_wrap_id (a : AMgr) (h : Nat) (u : Int) (hi : AInv off a)
     (hf : a.handles.contains h = false) (hu : a.m.tbl.Mem u) :
-    ∃ a1 a2, wrap h u a = (.ok (), a1) ∧ drop h a1 = (.ok (), a2) ∧ AInv a2 ∧
+    ∃ a1 a2, wrap h u a = (.ok (), a1) ∧ drop h a1 = (.ok (), a2) ∧ AInv off a2 ∧
       a2.m.tbl = a.m.tbl ∧ (∀ k : Nat, a2.m.ref[k]? = a.m.ref[k]?) ∧
       (∀ j : Nat, a2.handles[j]? = a.handles[j]?) := by
   obtain ⟨a1, h1, i1, t1, hh1, _⟩ := wrap_spec a h u hi hf hu
@@ -214,62 +174,61 @@ theorem drop_wrap_id (a : AMgr) (h : Nat) (u : Int) (hi : AInv a)
 /-! ### hypotheses about core operations -/
 
 /-- nodes that are referenced from outside stay, with the same meaning by variable name -/
-def Held (t t' : Tbl) (ext : Nat → Nat) : Prop :=
-  ∀ u : Int, t.Mem u → 0 < ext u.natAbs → t'.Mem u ∧ ∀ asg, denN t' u asg = denN t u asg
+def HeldExt (t t' : Tbl) (ext : Nat → Nat) : Prop :=
+  ∀ u : Int, t.Mem u → 0 < ext u.natAbs → t'.Mem u ∧ ∀ σ : AsgN, denN t' u σ = denN t u σ
 
-theorem Held.refl (t : Tbl) (ext : Nat → Nat) : Held t t ext := fun _ hu _ => ⟨hu, fun _ => rfl⟩
+theorem HeldExt.refl (t : Tbl) (ext : Nat → Nat) : HeldExt t t ext := fun _ hu _ => ⟨hu, fun _ => rfl⟩
 
-/-- what the autoref layer needs from a core operation, whatever its outcome (a result or
-an exception): the manager invariant and the count equation relative to the *same*
-external references are kept, externally referenced nodes survive with their meaning -/
-structure CoreKeeps (op : M α) : Prop where
-  keeps : ∀ (m : Mgr) (ext : Nat → Nat), Inv m → Counts m ext → ∀ r m', op m = (r, m') →
-    Inv m' ∧ Counts m' ext ∧ Held m.tbl m'.tbl ext
+/-- what the autoref layer needs from a core operation in ONE start state, whatever the
+outcome (a result or an exception): the manager invariant and the count equation relative
+to the *same* external references are kept, externally referenced nodes survive with their
+meaning, and (mode `off = true`) reordering stays disabled -/
+def CoreKeepsAt (off : Bool) (m : Mgr) (op : M α) : Prop :=
+  ∀ (ext : Nat → Nat), ModeOK off m → Inv m → RefExact m ext → ∀ r m', op m = (r, m') →
+    Inv m' ∧ RefExact m' ext ∧ HeldExt m.tbl m'.tbl ext ∧ ModeOK off m'
 
-/-- the same for one start state (for operations whose precondition depends on the state,
-e.g. `find_or_add` at a level above both children) -/
-def CoreKeepsAt (m : Mgr) (op : M α) : Prop :=
-  ∀ (ext : Nat → Nat), Inv m → Counts m ext → ∀ r m', op m = (r, m') →
-    Inv m' ∧ Counts m' ext ∧ Held m.tbl m'.tbl ext
+/-- … in every start state -/
+structure CoreKeeps (off : Bool) (op : M α) : Prop where
+  keeps : ∀ m : Mgr, CoreKeepsAt off m op
 
-theorem CoreKeeps.at {op : M α} (h : CoreKeeps op) (m : Mgr) : CoreKeepsAt m op := h.keeps m
+theorem CoreKeeps.at {op : M α} (h : CoreKeeps off op) (m : Mgr) : CoreKeepsAt off m op := h.keeps m
 
 /-- an operation that does not touch the state -/
 def MRead (x : M α) : Prop := ∀ m, (x m).2 = m
 
-theorem CoreKeeps.of_read {x : M α} (h : MRead x) : CoreKeeps x := by
-  refine ⟨fun m ext hi hc r m' he => ?_⟩
+theorem CoreKeeps.of_read {x : M α} (h : MRead x) : CoreKeeps off x := by
+  refine ⟨fun m ext hm hi hc r m' he => ?_⟩
   have : m' = m := by have := h m; rw [he] at this; exact this
   subst this
-  exact ⟨hi, hc, Held.refl _ _⟩
+  exact ⟨hi, hc, HeldExt.refl _ _, hm⟩
 
 /-! ### operations of the autoref layer -/
 
 /-- the guarantee of an autoref operation that creates at most the handle `h`: the
 invariant is kept, no other handle is touched, every `Function` that was alive keeps its
 node and its meaning (whether the operation returns or raises) -/
-def AKeeps (h : Nat) (x : AM α) : Prop :=
-  ∀ a, AInv a → a.handles.contains h = false → ∀ r a', x a = (r, a') →
-    AInv a' ∧ (∀ j : Nat, j ≠ h → a'.handles[j]? = a.handles[j]?) ∧
+def AKeeps (off : Bool) (h : Nat) (x : AM α) : Prop :=
+  ∀ a, AInv off a → a.handles.contains h = false → ∀ r a', x a = (r, a') →
+    AInv off a' ∧ (∀ j : Nat, j ≠ h → a'.handles[j]? = a.handles[j]?) ∧
     (∀ (j : Nat) (u : Int), a.handles[j]? = some u →
       a'.m.tbl.Mem u ∧ ∀ asg, denN a'.m.tbl u asg = denN a.m.tbl u asg)
 
 /-- the guarantee for one start state -/
-def AKeepsAt (a : AMgr) (h : Nat) (x : AM α) : Prop :=
-  AInv a → a.handles.contains h = false → ∀ r a', x a = (r, a') →
-    AInv a' ∧ (∀ j : Nat, j ≠ h → a'.handles[j]? = a.handles[j]?) ∧
+def AKeepsAt (off : Bool) (a : AMgr) (h : Nat) (x : AM α) : Prop :=
+  AInv off a → a.handles.contains h = false → ∀ r a', x a = (r, a') →
+    AInv off a' ∧ (∀ j : Nat, j ≠ h → a'.handles[j]? = a.handles[j]?) ∧
     (∀ (j : Nat) (u : Int), a.handles[j]? = some u →
       a'.m.tbl.Mem u ∧ ∀ asg, denN a'.m.tbl u asg = denN a.m.tbl u asg)
 
 /-- the same for an operation that creates at most the handles in the list `H` (`BDD.succ`
 creates two; comparisons create none) -/
-def AKeepsL (H : List Nat) (x : AM α) : Prop :=
-  ∀ a, AInv a → (∀ h, h ∈ H → a.handles.contains h = false) → ∀ r a', x a = (r, a') →
-    AInv a' ∧ (∀ j : Nat, j ∉ H → a'.handles[j]? = a.handles[j]?) ∧
+def AKeepsL (off : Bool) (H : List Nat) (x : AM α) : Prop :=
+  ∀ a, AInv off a → (∀ h, h ∈ H → a.handles.contains h = false) → ∀ r a', x a = (r, a') →
+    AInv off a' ∧ (∀ j : Nat, j ∉ H → a'.handles[j]? = a.handles[j]?) ∧
     (∀ (j : Nat) (u : Int), a.handles[j]? = some u →
       a'.m.tbl.Mem u ∧ ∀ asg, denN a'.m.tbl u asg = denN a.m.tbl u asg)
 
-theorem AKeeps.toL {x : AM α} {h : Nat} (hk : AKeeps h x) : AKeepsL [h] x := by
+theorem AKeeps.toL {x : AM α} {h : Nat} (hk : AKeeps off h x) : AKeepsL off [h] x := by
   intro a hi hf r a' he
   obtain ⟨i, s, d⟩ := hk a hi (hf h List.mem_cons_self) r a' he
   exact ⟨i, fun j hj => s j (fun e => hj (e ▸ List.mem_cons_self)), d⟩
@@ -277,14 +236,14 @@ theorem AKeeps.toL {x : AM α} {h : Nat} (hk : AKeeps h x) : AKeepsL [h] x := by
 /-- an autoref-level read -/
 def ARead (x : AM α) : Prop := ∀ a, (x a).2 = a
 
-theorem AKeeps.of_read {x : AM α} (h : Nat) (hx : ARead x) : AKeeps h x := by
+theorem AKeeps.of_read {x : AM α} (h : Nat) (hx : ARead x) : AKeeps off h x := by
   intro a hi _ r a' he
   have : a' = a := by have := hx a; rw [he] at this; exact this
   subst this
   exact ⟨hi, fun _ _ => rfl, fun j u hj => ⟨hi.hmem j u hj, fun _ => rfl⟩⟩
 
 theorem AKeeps.bind_read {x : AM α} {f : α → AM β} {h : Nat} (hx : ARead x)
-    (hf : ∀ v, AKeeps h (f v)) : AKeeps h (x >>= f) := by
+    (hf : ∀ v, AKeeps off h (f v)) : AKeeps off h (x >>= f) := by
   intro a hi hfr r a' he
   have h2 := hx a
   change AM.bind' x f a = (r, a') at he
@@ -304,18 +263,18 @@ theorem AKeeps.bind_read {x : AM α} {f : α → AM β} {h : Nat} (hx : ARead x)
       exact hf v a1 hi hfr r a' he
 
 /-- the state after a core operation that satisfies `CoreKeeps` -/
-theorem AInv.after_core {a : AMgr} (hi : AInv a) {m' : Mgr} (h1 : Inv m')
-    (h2 : Counts m' (aext a)) (h3 : Held a.m.tbl m'.tbl (aext a)) :
-    AInv { a with m := m' } ∧
+theorem AInv.after_core {a : AMgr} (hi : AInv off a) {m' : Mgr} (h1 : Inv m')
+    (h2 : RefExact m' (hext a)) (h3 : HeldExt a.m.tbl m'.tbl (hext a)) (h4 : ModeOK off m') :
+    AInv off { a with m := m' } ∧
     (∀ (j : Nat) (u : Int), a.handles[j]? = some u →
       m'.tbl.Mem u ∧ ∀ asg, denN m'.tbl u asg = denN a.m.tbl u asg) := by
   have hd : ∀ (j : Nat) (u : Int), a.handles[j]? = some u →
       m'.tbl.Mem u ∧ ∀ asg, denN m'.tbl u asg = denN a.m.tbl u asg :=
-    fun j u hj => h3 u (hi.hmem j u hj) (aext_pos_of_handle a j u hj)
-  exact ⟨⟨h1, fun j u hj => (hd j u hj).1, h2⟩, hd⟩
+    fun j u hj => h3 u (hi.hmem j u hj) (hext_pos_of_handle a j u hj)
+  exact ⟨⟨h1, fun j u hj => (hd j u hj).1, h2, h4⟩, hd⟩
 
 /-- a core operation without a node result (`collect_garbage`, `reorder`, `configure`, …) -/
-theorem liftM_keeps {op : M α} (hs : CoreKeeps op) (h : Nat) : AKeeps h (AM.liftM op) := by
+theorem liftM_keeps {op : M α} (hs : CoreKeeps off op) (h : Nat) : AKeeps off h (AM.liftM op) := by
   intro a hi _ r a' he
   unfold AM.liftM at he
   cases hop : op a.m with
@@ -323,15 +282,15 @@ theorem liftM_keeps {op : M α} (hs : CoreKeeps op) (h : Nat) : AKeeps h (AM.lif
     rw [hop] at he
     simp only at he
     cases he
-    obtain ⟨h1, h2, h3⟩ := hs.keeps a.m (aext a) hi.inv hi.counts r m' hop
-    obtain ⟨i', hd⟩ := hi.after_core h1 h2 h3
+    obtain ⟨h1, h2, h3, h4⟩ := hs.keeps a.m (hext a) hi.mode hi.inv hi.counts r m' hop
+    obtain ⟨i', hd⟩ := hi.after_core h1 h2 h3 h4
     exact ⟨i', fun _ _ => rfl, hd⟩
 
 /-- `_wrap` / `Function(…)` of an arbitrary integer with a fresh id: either the node is stored
 and the handle is created, or `ValueError` and nothing changes -/
-theorem wrap_total (a : AMgr) (h : Nat) (u : Int) (hi : AInv a) (hf : a.handles.contains h = false)
+theorem wrap_total (a : AMgr) (h : Nat) (u : Int) (hi : AInv off a) (hf : a.handles.contains h = false)
     (r : Except Err Unit) (a' : AMgr) (he : wrap h u a = (r, a') ∨ wrapF h u a = (r, a')) :
-    AInv a' ∧ a'.m.tbl = a.m.tbl ∧ (∀ j : Nat, j ≠ h → a'.handles[j]? = a.handles[j]?) ∧
+    AInv off a' ∧ a'.m.tbl = a.m.tbl ∧ (∀ j : Nat, j ≠ h → a'.handles[j]? = a.handles[j]?) ∧
     (r = .ok () → a'.handles[h]? = some u ∧ a.m.tbl.Mem u) := by
   by_cases hu : a.m.tbl.Mem u
   · obtain ⟨a2, hw, i2, t2, hh2, _⟩ := wrap_spec a h u hi hf hu
@@ -360,8 +319,8 @@ theorem wrap_total (a : AMgr) (h : Nat) (u : Int) (hi : AInv a) (hf : a.handles.
 
 /-- `r = self._bdd.<op>(…); return self._wrap(r)`: only the frame property of the core
 operation is needed — `_wrap` itself refuses an integer that is not a stored node -/
-theorem wrapResult_keepsAt {core : M Int} (a : AMgr) (hs : CoreKeepsAt a.m core) (h : Nat) :
-    AKeepsAt a h (wrapResult h core) := by
+theorem wrapResult_keepsAt {core : M Int} (a : AMgr) (hs : CoreKeepsAt off a.m core) (h : Nat) :
+    AKeepsAt off a h (wrapResult h core) := by
   intro hi hfr r a' he
   unfold wrapResult at he
   change AM.bind' (AM.liftM core) (fun r => AM.bind' (wrap h r) (fun _ => AM.pure' r)) a = _ at he
@@ -369,8 +328,8 @@ theorem wrapResult_keepsAt {core : M Int} (a : AMgr) (hs : CoreKeepsAt a.m core)
   cases hop : core a.m with
   | mk r0 m' =>
     rw [hop] at he
-    obtain ⟨h1, h2, h3⟩ := hs (aext a) hi.inv hi.counts r0 m' hop
-    obtain ⟨i1, hd⟩ := hi.after_core h1 h2 h3
+    obtain ⟨h1, h2, h3, h4⟩ := hs (hext a) hi.mode hi.inv hi.counts r0 m' hop
+    obtain ⟨i1, hd⟩ := hi.after_core h1 h2 h3 h4
     cases r0 with
     | error e =>
       simp only at he
@@ -387,20 +346,20 @@ theorem wrapResult_keepsAt {core : M Int} (a : AMgr) (hs : CoreKeepsAt a.m core)
         subst this
         exact ⟨i2, hfr2, fun j u hj => by rw [t2]; exact hd j u hj⟩
 
-theorem wrapResult_keeps {core : M Int} (hs : CoreKeeps core) (h : Nat) :
-    AKeeps h (wrapResult h core) := fun a => wrapResult_keepsAt a (hs.at a.m) h
+theorem wrapResult_keeps {core : M Int} (hs : CoreKeeps off core) (h : Nat) :
+    AKeeps off h (wrapResult h core) := fun a => wrapResult_keepsAt a (hs.at a.m) h
 
 /-- `Function(r, bdd)` after a core operation (`Function._apply`) -/
-theorem liftM_wrapF_keeps {core : M Int} (hs : CoreKeeps core) (h : Nat) :
-    AKeeps h (do let r ← AM.liftM core; wrapF h r; return r) := by
+theorem liftM_wrapF_keeps {core : M Int} (hs : CoreKeeps off core) (h : Nat) :
+    AKeeps off h (do let r ← AM.liftM core; wrapF h r; return r) := by
   intro a hi hfr r a' he
   change AM.bind' (AM.liftM core) (fun r => AM.bind' (wrapF h r) (fun _ => AM.pure' r)) a = _ at he
   unfold AM.bind' AM.liftM at he
   cases hop : core a.m with
   | mk r0 m' =>
     rw [hop] at he
-    obtain ⟨h1, h2, h3⟩ := hs.keeps a.m (aext a) hi.inv hi.counts r0 m' hop
-    obtain ⟨i1, hd⟩ := hi.after_core h1 h2 h3
+    obtain ⟨h1, h2, h3, h4⟩ := hs.keeps a.m (hext a) hi.mode hi.inv hi.counts r0 m' hop
+    obtain ⟨i1, hd⟩ := hi.after_core h1 h2 h3 h4
     cases r0 with
     | error e =>
       simp only at he
@@ -508,66 +467,122 @@ theorem pure_readM (v : α) : MRead (pure v : M α) := fun _ => rfl
 
 /-- the frame properties of the core operations that the wrappers call; each is a
 statement about `dd.bdd` alone (no handles), to be discharged by the core proofs -/
-structure CoreSpecs : Prop where
-  var : ∀ n, CoreKeeps (var n)
-  apply : ∀ op u v w, CoreKeeps (apply op u v w)
-  ite : ∀ g u v, CoreKeeps (ite g u v)
-  letOp : ∀ d u, CoreKeeps (letOp d u)
-  quantify : ∀ u q f, CoreKeeps (quantify u q f)
-  cube : ∀ d, CoreKeeps (cube d)
-  image : ∀ t s rn q f, CoreKeeps (image t s rn q f)
-  preimage : ∀ t s rn q f, CoreKeeps (preimage t s rn q f)
-  collectGarbage : CoreKeeps (collectGarbage none)
-  reorder : ∀ o, CoreKeeps (reorder o)
-  declare : ∀ ns, CoreKeeps (declare ns)
-  addVar : ∀ n l, CoreKeeps (addVar n l)
-  copyBdd : ∀ src u, CoreKeeps (copyBdd src u)
-  copyVars : ∀ src names, CoreKeeps (copyVarsCore src names)
+structure CoreSpecs (off : Bool) : Prop where
+  var : ∀ n, CoreKeeps off (var n)
+  apply : ∀ op u v w, CoreKeeps off (apply op u v w)
+  ite : ∀ g u v, CoreKeeps off (ite g u v)
+  letOp : ∀ d u, CoreKeeps off (letOp d u)
+  quantify : ∀ (m : Mgr) u, m.tbl.Mem u → ∀ q f, CoreKeepsAt off m (quantify u q f)
+  cube : ∀ d, CoreKeeps off (cube d)
+  image : ∀ t s rn q f, CoreKeeps off (image t s rn q f)
+  preimage : ∀ t s rn q f, CoreKeeps off (preimage t s rn q f)
+  reorder : ∀ o, CoreKeeps off (reorder o)
+  declare : ∀ ns, CoreKeeps off (declare ns)
+  addVar : ∀ n l, CoreKeeps off (addVar n l)
+  copyBdd : ∀ src u, CoreKeeps off (copyBdd src u)
+  copyVars : ∀ src names, CoreKeeps off (copyVarsCore src names)
 
-theorem aVar_keeps (cs : CoreSpecs) (name : String) (h : Nat) : AKeeps h (aVar name h) :=
-  wrapResult_keeps (cs.var name) h
+theorem aVar_keeps (name : String) (hs : CoreKeeps off (var name)) (h : Nat) :
+    AKeeps off h (aVar name h) :=
+  wrapResult_keeps hs h
 
 /-- `BDD.true` / `BDD.false` (no hypothesis) -/
-theorem aConst_keeps (b : Bool) (h : Nat) : AKeeps h (aConst b h) :=
+theorem aConst_keeps (b : Bool) (h : Nat) : AKeeps off h (aConst b h) :=
   wrapResult_keeps (CoreKeeps.of_read (pure_readM _)) h
 
-theorem aApply_keeps (cs : CoreSpecs) (op : String) (hu : Nat) (hv hw : Option Nat) (h : Nat) :
-    AKeeps h (aApply op hu hv hw h) := by
+theorem aApply_keeps (op : String) (hs : ∀ u v w, CoreKeeps off (apply op u v w))
+    (hu : Nat) (hv hw : Option Nat) (h : Nat) :
+    AKeeps off h (aApply op hu hv hw h) := by
   unfold aApply
   refine AKeeps.bind_read (nodeIn_read hu) fun u => ?_
   refine AKeeps.bind_read (ARead.check _ _) fun _ => ?_
   refine AKeeps.bind_read (optNode_read nodeIn_read hv) fun v => ?_
   refine AKeeps.bind_read (optNode_read nodeIn_read hw) fun w => ?_
-  exact wrapResult_keeps (cs.apply op u v w) h
+  exact wrapResult_keeps (hs u v w) h
 
-theorem aIte_keeps (cs : CoreSpecs) (hg hu hv : Nat) (h : Nat) : AKeeps h (aIte hg hu hv h) := by
+theorem aIte_keeps (hs : ∀ g u v, CoreKeeps off (ite g u v)) (hg hu hv : Nat) (h : Nat) :
+    AKeeps off h (aIte hg hu hv h) := by
   unfold aIte
   refine AKeeps.bind_read (nodeIn_read hg) fun g => ?_
   refine AKeeps.bind_read (nodeIn_read hu) fun u => ?_
   refine AKeeps.bind_read (nodeIn_read hv) fun v => ?_
-  exact wrapResult_keeps (cs.ite g u v) h
+  exact wrapResult_keeps (hs g u v) h
 
-theorem aQuantify_keeps (cs : CoreSpecs) (hu : Nat) (q : List Key) (fa : Bool) (h : Nat) :
-    AKeeps h (aQuantify hu q fa h) := by
-  unfold aQuantify
-  refine AKeeps.bind_read (nodeIn_read hu) fun u => ?_
-  exact wrapResult_keeps (cs.quantify u q fa) h
+/-- the operand that passed the `u in self` test is a stored node -/
+theorem nodeIn_ok (hu : Nat) (a a' : AMgr) (u : Int) (h : nodeIn hu a = (.ok u, a')) :
+    a' = a ∧ a.m.tbl.Mem u := by
+  have hr := nodeIn_read hu a
+  rw [h] at hr
+  simp only at hr
+  subst hr
+  refine ⟨rfl, ?_⟩
+  unfold nodeIn at h
+  change AM.bind' (nodeSame hu) _ a' = _ at h
+  unfold AM.bind' at h
+  have h1 := nodeSame_read hu a'
+  cases hx : nodeSame hu a' with
+  | mk r1 a1 =>
+    rw [hx] at h h1
+    simp only at h1
+    subst h1
+    cases r1 with
+    | error e => simp only at h; cases h
+    | ok u' =>
+      simp only at h
+      change AM.bind' AM.get _ a1 = _ at h
+      unfold AM.bind' AM.get at h
+      simp only at h
+      change AM.bind' (AM.check (a1.m.mem u') .value) _ a1 = _ at h
+      unfold AM.bind' AM.check at h
+      cases hm : a1.m.mem u' with
+      | false => rw [hm] at h; simp [AM.throw] at h
+      | true =>
+        rw [hm] at h
+        simp only [if_true, AM.pure'] at h
+        change (Except.ok u', a1) = _ at h
+        cases h
+        exact (Mgr.mem_iff a1.m u).mp hm
 
-theorem aCube_keeps (cs : CoreSpecs) (d : List (String × Bool)) (h : Nat) : AKeeps h (aCube d h) :=
+/-- `quantify(u, qvars, forall)`: the core hypothesis is only needed for stored operands -/
+theorem aQuantify_keeps (q : List Key) (fa : Bool)
+    (hs : ∀ (m : Mgr) (u : Int), m.tbl.Mem u → CoreKeepsAt off m (quantify u q fa))
+    (hu : Nat) (h : Nat) : AKeeps off h (aQuantify hu q fa h) := by
+  intro a hi hfr r a' he
+  unfold aQuantify at he
+  change AM.bind' (nodeIn hu) _ a = _ at he
+  unfold AM.bind' at he
+  cases hx : nodeIn hu a with
+  | mk r1 a1 =>
+    rw [hx] at he
+    cases r1 with
+    | error e =>
+      have h1 := nodeIn_read hu a
+      rw [hx] at h1
+      simp only at h1 he
+      subst h1
+      cases he
+      exact ⟨hi, fun _ _ => rfl, fun j u hj => ⟨hi.hmem j u hj, fun _ => rfl⟩⟩
+    | ok u =>
+      obtain ⟨h1, hmem⟩ := nodeIn_ok hu a a1 u hx
+      subst h1
+      simp only at he
+      exact wrapResult_keepsAt a1 (hs a1.m u hmem) h hi hfr r a' he
+
+theorem aCube_keeps (cs : CoreSpecs off) (d : List (String × Bool)) (h : Nat) : AKeeps off h (aCube d h) :=
   wrapResult_keeps (cs.cube d) h
 
 /-- `_add_int` (no hypothesis): a second `Function` on a stored node -/
-theorem aAddInt_keeps (i : Int) (h : Nat) : AKeeps h (aAddInt i h) :=
+theorem aAddInt_keeps (i : Int) (h : Nat) : AKeeps off h (aAddInt i h) :=
   wrapResult_keeps (CoreKeeps.of_read (addInt_read i)) h
 
 /-- `copy_bdd(u, u.bdd)` (no hypothesis) -/
-theorem aCopyBddSame_keeps (hu : Nat) (h : Nat) : AKeeps h (aCopyBddSame hu h) := by
+theorem aCopyBddSame_keeps (hu : Nat) (h : Nat) : AKeeps off h (aCopyBddSame hu h) := by
   unfold aCopyBddSame
   refine AKeeps.bind_read (nodeOwn_read hu) fun u => ?_
   exact wrapResult_keeps (CoreKeeps.of_read (pure_readM _)) h
 
-theorem aImage_keeps (cs : CoreSpecs) (pre : Bool) (ht hs : Nat) (rn : List (Key × Key)) (q : List Key)
-    (fa : Bool) (h : Nat) : AKeeps h (aImage pre ht hs rn q fa h) := by
+theorem aImage_keeps (cs : CoreSpecs off) (pre : Bool) (ht hs : Nat) (rn : List (Key × Key)) (q : List Key)
+    (fa : Bool) (h : Nat) : AKeeps off h (aImage pre ht hs rn q fa h) := by
   unfold aImage
   refine AKeeps.bind_read (nodeOwn_read ht) fun t => ?_
   refine AKeeps.bind_read (nodeSame_read hs) fun s => ?_
@@ -576,28 +591,30 @@ theorem aImage_keeps (cs : CoreSpecs) (pre : Bool) (ht hs : Nat) (rn : List (Key
   · exact wrapResult_keeps (cs.preimage t s rn q fa) h
 
 /-- `Function.__invert__ / __and__ / __or__ / implies / equiv` -/
-theorem fApply_keeps (cs : CoreSpecs) (op : String) (hs : Nat) (ho : Option Nat) (h : Nat) :
-    AKeeps h (fApply op hs ho h) := by
+theorem fApply_keeps (op : String) (hsp : ∀ u v, CoreKeeps off (apply op u v none))
+    (hs : Nat) (ho : Option Nat) (h : Nat) :
+    AKeeps off h (fApply op hs ho h) := by
   unfold fApply
   refine AKeeps.bind_read (nodeOwn_read hs) fun s => ?_
   refine AKeeps.bind_read (optNode_read nodeSame_read ho) fun o => ?_
-  exact liftM_wrapF_keeps (cs.apply op s o none) h
+  exact liftM_wrapF_keeps (hsp s o) h
 
-theorem aCollectGarbage_keeps (cs : CoreSpecs) (h : Nat) : AKeeps h aCollectGarbage :=
-  liftM_keeps cs.collectGarbage h
+theorem aCollectGarbage_keeps (hs : CoreKeeps off (collectGarbage none)) (h : Nat) :
+    AKeeps off h aCollectGarbage :=
+  liftM_keeps hs h
 
-theorem aReorder_keeps (cs : CoreSpecs) (o : Option (List (String × Int))) (h : Nat) :
-    AKeeps h (aReorder o) := liftM_keeps (cs.reorder o) h
+theorem aReorder_keeps (cs : CoreSpecs off) (o : Option (List (String × Int))) (h : Nat) :
+    AKeeps off h (aReorder o) := liftM_keeps (cs.reorder o) h
 
-theorem aDeclare_keeps (cs : CoreSpecs) (ns : List String) (h : Nat) : AKeeps h (aDeclare ns) :=
+theorem aDeclare_keeps (cs : CoreSpecs off) (ns : List String) (h : Nat) : AKeeps off h (aDeclare ns) :=
   liftM_keeps (cs.declare ns) h
 
-theorem aAddVar_keeps (cs : CoreSpecs) (n : String) (l : Option Int) (h : Nat) :
-    AKeeps h (aAddVar n l) := liftM_keeps (cs.addVar n l) h
+theorem aAddVar_keeps (cs : CoreSpecs off) (n : String) (l : Option Int) (h : Nat) :
+    AKeeps off h (aAddVar n l) := liftM_keeps (cs.addVar n l) h
 
 /-- an operation followed by a read -/
-theorem AKeeps.then_read {x : AM α} {f : α → AM β} {h : Nat} (hx : AKeeps h x)
-    (hf : ∀ v, ARead (f v)) : AKeeps h (x >>= f) := by
+theorem AKeeps.then_read {x : AM α} {f : α → AM β} {h : Nat} (hx : AKeeps off h x)
+    (hf : ∀ v, ARead (f v)) : AKeeps off h (x >>= f) := by
   intro a hi hfr r a' he
   change AM.bind' x f a = (r, a') at he
   unfold AM.bind' at he
@@ -618,12 +635,12 @@ theorem AKeeps.then_read {x : AM α} {f : α → AM β} {h : Nat} (hx : AKeeps h
       subst h2
       exact k
 
-theorem wrapF_keeps (h : Nat) (u : Int) : AKeeps h (wrapF h u) := by
+theorem wrapF_keeps (h : Nat) (u : Int) : AKeeps off h (wrapF h u) := by
   intro a hi hfr r a' he
   obtain ⟨i2, t2, hfr2, _⟩ := wrap_total a h u hi hfr r a' (Or.inr he)
   exact ⟨i2, hfr2, fun j v hj => by rw [t2]; exact ⟨hi.hmem j v hj, fun _ => rfl⟩⟩
 
-theorem wrap_keeps (h : Nat) (u : Int) : AKeeps h (wrap h u) := by
+theorem wrap_keeps (h : Nat) (u : Int) : AKeeps off h (wrap h u) := by
   intro a hi hfr r a' he
   obtain ⟨i2, t2, hfr2, _⟩ := wrap_total a h u hi hfr r a' (Or.inl he)
   exact ⟨i2, hfr2, fun j v hj => by rw [t2]; exact ⟨hi.hmem j v hj, fun _ => rfl⟩⟩
@@ -640,7 +657,7 @@ theorem aLetArgs_read (d : ALetArg) : ARead (aLetArgs d) := by
   | names d => exact ARead.pure _
   | funs d => exact ARead.bind (nodesAny_read d) fun _ => ARead.pure _
 
-theorem aLet_keeps (cs : CoreSpecs) (d : ALetArg) (hu : Nat) (h : Nat) : AKeeps h (aLet d hu h) := by
+theorem aLet_keeps (cs : CoreSpecs off) (d : ALetArg) (hu : Nat) (h : Nat) : AKeeps off h (aLet d hu h) := by
   unfold aLet
   refine AKeeps.bind_read (nodeIn_read hu) fun u => ?_
   split
@@ -649,7 +666,7 @@ theorem aLet_keeps (cs : CoreSpecs) (d : ALetArg) (hu : Nat) (h : Nat) : AKeeps 
     exact (wrapResult_keeps (cs.letOp d' u) h).then_read fun _ => ARead.pure _
 
 /-- `Function.low` / `Function.high` (no hypothesis) -/
-theorem fChild_keeps (high : Bool) (hs : Nat) (h : Nat) : AKeeps h (fChild high hs h) := by
+theorem fChild_keeps (high : Bool) (hs : Nat) (h : Nat) : AKeeps off h (fChild high hs h) := by
   unfold fChild
   refine AKeeps.bind_read (nodeOwn_read hs) fun s => ?_
   refine AKeeps.bind_read (ARead.liftE _) fun p => ?_
@@ -662,17 +679,21 @@ theorem fChild_keeps (high : Bool) (hs : Nat) (h : Nat) : AKeeps h (fChild high 
 
 /-- `copy.copy(f)` = `Function.__copy__` (no hypothesis): a second `Function` on the same
 node with its own reference -/
-theorem fCopy_keeps (hs : Nat) (h : Nat) : AKeeps h (fCopy hs h) := by
+theorem fCopy_keeps (hs : Nat) (h : Nat) : AKeeps off h (fCopy hs h) := by
   unfold fCopy
   refine AKeeps.bind_read (nodeOwn_read hs) fun s => ?_
   exact (wrapF_keeps h s).then_read fun _ => ARead.pure _
 
-/-- `configure(reordering=…)` only changes the threshold (no hypothesis) -/
-theorem configure_keeps (r : Option Bool) : CoreKeeps (configure r) := by
-  refine ⟨fun m ext hi hc r' m' he => ?_⟩
-  have key : ∀ l, Inv { m with lastLen := l } ∧ Counts { m with lastLen := l } ext ∧
-      Held m.tbl ({ m with lastLen := l } : Mgr).tbl ext :=
-    fun l => ⟨⟨hi.wf, hi.pred, hi.freeGe, hi.free, hi.refOne, hi.refDom, hi.cache⟩, hc, Held.refl _ _⟩
+/-- `configure(reordering=…)` only changes the threshold (no hypothesis; in mode `off = true`
+the call must not enable reordering) -/
+theorem configure_keeps (r : Option Bool) (hr : off = true → r ≠ some true) :
+    CoreKeeps off (configure r) := by
+  refine ⟨fun m ext hm hi hc r' m' he => ?_⟩
+  have key : ∀ l, ModeOK off { m with lastLen := l } →
+      Inv { m with lastLen := l } ∧ RefExact { m with lastLen := l } ext ∧
+      HeldExt m.tbl ({ m with lastLen := l } : Mgr).tbl ext ∧ ModeOK off { m with lastLen := l } :=
+    fun l hl => ⟨⟨hi.wf, hi.pred, hi.freeGe, hi.free, hi.refOne, hi.refDom, hi.cache⟩,
+      ⟨hc.dom, hc.cnt, hc.extZero⟩, HeldExt.refl _ _, hl⟩
   unfold configure at he
   change M.bind' M.get _ m = _ at he
   unfold M.bind' M.get at he
@@ -681,20 +702,21 @@ theorem configure_keeps (r : Option Bool) : CoreKeeps (configure r) := by
   | none =>
     change (Except.ok m.lastLen.isSome, m) = _ at he
     cases he
-    exact ⟨hi, hc, Held.refl _ _⟩
+    exact ⟨hi, hc, HeldExt.refl _ _, hm⟩
   | some b =>
     cases b with
     | true =>
       change (Except.ok m.lastLen.isSome, { m with lastLen := some (max Gen.reorderStarts m.len) }) = _ at he
       cases he
-      exact key _
+      exact key _ (fun ho => absurd rfl (hr ho))
     | false =>
       change (Except.ok m.lastLen.isSome, { m with lastLen := none }) = _ at he
       cases he
-      exact key _
+      exact key _ (fun _ => rfl)
 
-theorem aConfigure_keeps (r : Option Bool) (h : Nat) : AKeeps h (aConfigure r) :=
-  liftM_keeps (configure_keeps r) h
+theorem aConfigure_keeps (r : Option Bool) (hr : off = true → r ≠ some true) (h : Nat) :
+    AKeeps off h (aConfigure r) :=
+  liftM_keeps (configure_keeps r hr) h
 
 /-- `find_or_add(var, low, high)`: the wrapper adds no test of its own, so the guarantee
 holds exactly when the core `find_or_add` keeps the invariants for the level and children
@@ -702,10 +724,10 @@ that are read from the current state (its documented precondition: the level is 
 children) -/
 theorem aFindOrAdd_keepsAt (a : AMgr) (var : String) (hlow hhigh h : Nat)
     (hfoa : ∀ level lo hi, (levelOfVar var a.m).1 = .ok level → (nodeAny hlow a).1 = .ok lo →
-      (nodeAny hhigh a).1 = .ok hi → CoreKeepsAt a.m (findOrAdd level lo hi)) :
-    AKeepsAt a h (aFindOrAdd var hlow hhigh h) := by
+      (nodeAny hhigh a).1 = .ok hi → CoreKeepsAt off a.m (findOrAdd level lo hi)) :
+    AKeepsAt off a h (aFindOrAdd var hlow hhigh h) := by
   intro hi hfr r a' he
-  have triv : AInv a ∧ (∀ j : Nat, j ≠ h → a.handles[j]? = a.handles[j]?) ∧
+  have triv : AInv off a ∧ (∀ j : Nat, j ≠ h → a.handles[j]? = a.handles[j]?) ∧
       (∀ (j : Nat) (u : Int), a.handles[j]? = some u →
         a.m.tbl.Mem u ∧ ∀ asg, denN a.m.tbl u asg = denN a.m.tbl u asg) :=
     ⟨hi, fun _ _ => rfl, fun j u hj => ⟨hi.hmem j u hj, fun _ => rfl⟩⟩
@@ -755,7 +777,7 @@ theorem aFindOrAdd_keepsAt (a : AMgr) (var : String) (hlow hhigh h : Nat)
 
 /-- `BDD.copy(u, other)` / `copy_bdd(u, other)` into another manager: a guarantee about the
 *target* (the source is only read) -/
-theorem aCopyTo_keeps (cs : CoreSpecs) (src : AMgr) (hu h : Nat) : AKeeps h (aCopyTo src hu h) := by
+theorem aCopyTo_keeps (cs : CoreSpecs off) (src : AMgr) (hu h : Nat) : AKeeps off h (aCopyTo src hu h) := by
   intro a hi hfr r a' he
   unfold aCopyTo at he
   cases hx : nodeIn hu src with
@@ -769,8 +791,8 @@ theorem aCopyTo_keeps (cs : CoreSpecs) (src : AMgr) (hu h : Nat) : AKeeps h (aCo
       simp only at he
       exact wrapResult_keeps (cs.copyBdd src.m.tbl u) h a hi hfr r a' he
 
-theorem aCopyBddTo_keeps (cs : CoreSpecs) (src : AMgr) (hu h : Nat) :
-    AKeeps h (aCopyBddTo src hu h) := by
+theorem aCopyBddTo_keeps (cs : CoreSpecs off) (src : AMgr) (hu h : Nat) :
+    AKeeps off h (aCopyBddTo src hu h) := by
   intro a hi hfr r a' he
   unfold aCopyBddTo at he
   cases hx : nodeOwn hu src with
@@ -784,29 +806,29 @@ theorem aCopyBddTo_keeps (cs : CoreSpecs) (src : AMgr) (hu h : Nat) :
       simp only at he
       exact wrapResult_keeps (cs.copyBdd src.m.tbl u) h a hi hfr r a' he
 
-theorem aCopyVars_keeps (cs : CoreSpecs) (src : Tbl) (names : List String) (h : Nat) :
-    AKeeps h (aCopyVars src names) := liftM_keeps (cs.copyVars src names) h
+theorem aCopyVars_keeps (cs : CoreSpecs off) (src : Tbl) (names : List String) (h : Nat) :
+    AKeeps off h (aCopyVars src names) := liftM_keeps (cs.copyVars src names) h
 
 /-! ### histories -/
 
 /-- one step of a history in which the handles in `P` are never dropped: any operation that
 creates at most the (fresh) handles `H`, or the drop of a live handle outside `P` -/
-inductive AStep (P : Nat → Prop) : AMgr → AMgr → Prop
-  | op {α : Type} (H : List Nat) (x : AM α) (hk : AKeepsL H x) (a : AMgr)
+inductive AStep (off : Bool) (P : Nat → Prop) : AMgr → AMgr → Prop
+  | op {α : Type} (H : List Nat) (x : AM α) (hk : AKeepsL off H x) (a : AMgr)
       (hf : ∀ h, h ∈ H → a.handles.contains h = false) (r : Except Err α) (a' : AMgr)
-      (he : x a = (r, a')) : AStep P a a'
+      (he : x a = (r, a')) : AStep off P a a'
   | drop (h : Nat) (hP : ¬ P h) (a a' : AMgr) (u : Int) (hl : a.handles[h]? = some u)
-      (he : drop h a = (.ok (), a')) : AStep P a a'
+      (he : drop h a = (.ok (), a')) : AStep off P a a'
 
-inductive AReach (P : Nat → Prop) : AMgr → AMgr → Prop
-  | refl (a : AMgr) : AReach P a a
-  | step {a b c : AMgr} : AReach P a b → AStep P b c → AReach P a c
+inductive AReach (off : Bool) (P : Nat → Prop) : AMgr → AMgr → Prop
+  | refl (a : AMgr) : AReach off P a a
+  | step {a b c : AMgr} : AReach off P a b → AStep off P b c → AReach off P a c
 
 /-- every live `Function` keeps denoting the same function (by variable name) through any
 sequence of operations, collections and reorderings, no matter when other `Function`s are
 dropped; and the count equation holds throughout -/
-theorem autoref_live_den (P : Nat → Prop) {a a' : AMgr} (hi : AInv a) (hr : AReach P a a') :
-    AInv a' ∧ ∀ h, P h → ∀ u, a.handles[h]? = some u →
+theorem autoref_live_den (P : Nat → Prop) {a a' : AMgr} (hi : AInv off a) (hr : AReach off P a a') :
+    AInv off a' ∧ ∀ h, P h → ∀ u, a.handles[h]? = some u →
       a'.handles[h]? = some u ∧ a'.m.tbl.Mem u ∧
       ∀ asg, denN a'.m.tbl u asg = denN a.m.tbl u asg := by
   induction hr with
@@ -836,17 +858,23 @@ theorem autoref_live_den (P : Nat → Prop) {a a' : AMgr} (hi : AInv a) (hr : AR
 
 /-! ### shutdown -/
 
-/-- what `collect_garbage()` is assumed to do (a statement about `dd.bdd` alone): from a
-state that satisfies the count equation it succeeds, keeps invariant and equation, and
-leaves no stored node with count zero -/
-structure GcSpec : Prop where
-  gc : ∀ (m : Mgr) (ext : Nat → Nat), Inv m → Counts m ext →
-    ∃ m', collectGarbage none m = (.ok (), m') ∧ Inv m' ∧ Counts m' ext ∧
+/-- the count equation without the terminal's own reference (the state inside
+`dd.bdd.BDD.__del__` after `decref(1)`): `ref k = indeg k + ext k`, no other keys -/
+def RefExact0 (m : Mgr) (ext : Nat → Nat) : Prop :=
+  ∀ k : Nat, m.ref[k]? = if (k = 1 ∨ (m.tbl.node? k).isSome) then some (indeg m.tbl k + ext k) else none
+
+/-- what `collect_garbage()` is assumed to do in that state (a statement about `dd.bdd`
+alone; `collectGarbage_spec` proves it for states that still have the terminal's reference):
+it succeeds, keeps invariant and equation, and leaves no stored node with count zero -/
+structure GcSpec0 : Prop where
+  gc : ∀ (m : Mgr) (ext : Nat → Nat), Inv m → RefExact0 m ext →
+    ∃ m', collectGarbage none m = (.ok (), m') ∧ Inv m' ∧ RefExact0 m' ext ∧
       ∀ (u : Nat) (n : Nd), m'.tbl.node? u = some n → m'.ref[u]? ≠ some 0
 
 /-- with no external reference at all, a table without zero-count nodes is empty:
 a node of least level has no parent -/
-theorem no_nodes_of_no_ext (m : Mgr) (hi : Inv m) (hc : Counts m (fun _ => 0))
+theorem no_nodes_of_no_ext (m : Mgr) (hi : Inv m)
+    (hc : ∀ (u : Nat) (n : Nd), m.tbl.node? u = some n → m.ref[u]? = some (indeg m.tbl u))
     (hz : ∀ (u : Nat) (n : Nd), m.tbl.node? u = some n → m.ref[u]? ≠ some 0) :
     ∀ (u : Nat), m.tbl.node? u = none := by
   have key : ∀ (L : Nat) (u : Nat) (n : Nd), m.tbl.node? u = some n → n.lvl = L → False := by
@@ -854,15 +882,12 @@ theorem no_nodes_of_no_ext (m : Mgr) (hi : Inv m) (hc : Counts m (fun _ => 0))
     induction L using Nat.strongRecOn with
     | _ L ih =>
       intro u n hn hl
-      have hnm : NMem m.tbl u := Or.inr (by rw [hn]; rfl)
-      have hr := hc u
-      rw [if_pos hnm] at hr
+      have hr := hc u n hn
       have hpos : 0 < indeg m.tbl u := by
         cases hd : indeg m.tbl u with
         | zero => rw [hd] at hr; exact absurd hr (hz u n hn)
         | succ k => omega
-      obtain ⟨i, p, hp, hedge⟩ := indeg_pos m.tbl u hpos
-      have hp' : m.tbl.node? i = some p := hp
+      obtain ⟨i, p, hp, hedge⟩ := indeg_pos hpos
       have hu2 := hi.wf.ge_two u n hn
       have hlev : ∀ (e : Int), e.natAbs = u → m.tbl.levelOf e = n.lvl := by
         intro e he
@@ -872,52 +897,57 @@ theorem no_nodes_of_no_ext (m : Mgr) (hi : Inv m) (hc : Counts m (fun _ => 0))
         simp [this, hn]
       have : p.lvl < n.lvl := by
         rcases hedge with h1 | h1
-        · have := hi.wf.lo_lt i p hp'; rw [hlev _ h1] at this; exact this
-        · have := hi.wf.hi_lt i p hp'; rw [hlev _ h1] at this; exact this
-      exact ih p.lvl (by omega) i p hp' rfl
+        · have := hi.wf.lo_lt i p hp; rw [hlev _ h1] at this; exact this
+        · have := hi.wf.hi_lt i p hp; rw [hlev _ h1] at this; exact this
+      exact ih p.lvl (by omega) i p hp rfl
   intro u
   cases hn : m.tbl.node? u with
   | none => rfl
   | some n => exact absurd rfl (fun h : n.lvl = n.lvl => key n.lvl u n hn h)
 
+theorem indeg_zero_of_no_nodes (t : Tbl) (h : ∀ u : Nat, t.node? u = none) (k : Nat) : indeg t k = 0 := by
+  cases hd : indeg t k with
+  | zero => rfl
+  | succ j =>
+    obtain ⟨i, p, hp, _⟩ := indeg_pos (t := t) (u := k) (by omega)
+    rw [h i] at hp; cases hp
+
 /-- once every `Function` of a manager is gone, the manager's shutdown check
-(`dd.bdd.BDD.__del__`) passes: after the terminal's own reference is released and a
-collection, only the terminal remains and every count is zero -/
-theorem autoref_shutdown_of_gcSpec (gs : GcSpec) (a : AMgr) (hi : AInv a)
+(`dd.bdd.BDD.__del__`) passes — whatever garbage is still stored: after the terminal's own
+reference is released and a collection, only the terminal remains and every count is zero -/
+theorem autoref_shutdown_of_gcSpec0 (gs : GcSpec0) (a : AMgr) (hi : AInv off a)
     (he : a.handles.isEmpty = true) :
     ∃ m', shutdown a.m = (.ok (), m') ∧ (∀ u : Nat, m'.tbl.node? u = none) ∧
       (∀ (k c : Nat), m'.ref[k]? = some c → c = 0) := by
-  have hext : ∀ k, aext a k = if k = 1 then 1 else 0 := by
-    intro k; unfold aext; rw [hcount_of_isEmpty _ _ he]; simp
+  have hext : ∀ k, hext a k = 0 := fun k => hcount_of_isEmpty _ _ he
   have hone : a.m.tbl.Mem (1 : Int) := Or.inl rfl
-  have hr1 := hi.counts.of_mem hone
   have h1 : (1 : Int).natAbs = 1 := rfl
-  rw [h1, hext 1] at hr1
-  simp only [if_true] at hr1
-  obtain ⟨m1, hd, ht1, i1, c1⟩ := decref_spec a.m (aext a) 1 hi.inv hi.counts hone (by rw [h1, hext 1]; simp)
-  have c1' : Counts m1 (fun _ => 0) := by
-    refine c1.congr fun k => ?_
-    rw [hext k, h1]
+  have hr1 : a.m.ref[(1 : Nat)]? = some (indeg a.m.tbl 1 + 1) := by
+    have := hi.counts.get hone
+    rw [h1, hext 1] at this
+    simpa using this
+  have hd : decref 1 a.m = (.ok (), { a.m with ref := a.m.ref.insert 1 (indeg a.m.tbl 1) }) :=
+    decref_eq a.m 1 _ hr1
+  have i1 : Inv { a.m with ref := a.m.ref.insert 1 (indeg a.m.tbl 1) } := by
+    have := (decref_kept a.m hi.inv 1).inv
+    rw [hd] at this; exact this
+  have c1 : RefExact0 { a.m with ref := a.m.ref.insert 1 (indeg a.m.tbl 1) } (fun _ => 0) := by
+    intro k
+    show (a.m.ref.insert 1 (indeg a.m.tbl 1))[k]? = if (k = 1 ∨ (a.m.tbl.node? k).isSome) then _ else _
     by_cases hk : k = 1
-    · subst hk; simp
-    · have : ¬ 1 = k := fun h => hk h.symm
-      simp [hk, this]
-  obtain ⟨m2, hg, i2, c2, hz⟩ := gs.gc m1 _ i1 c1'
-  have hnone := no_nodes_of_no_ext m2 i2 c2 hz
+    · subst hk
+      rw [TreeMap.getElem?_insert_self, if_pos (Or.inl rfl)]
+      rfl
+    · rw [getElem?_insert_ne _ _ _ _ hk, hi.counts.lookup k, hext k]
+      simp [hk]
+  obtain ⟨m2, hg, i2, c2, hz⟩ := gs.gc _ _ i1 c1
+  have hnone := no_nodes_of_no_ext m2 i2
+    (fun u n hn => by rw [c2 u, if_pos (Or.inr (by rw [hn]; rfl))]; simp) hz
   have hzero : ∀ (k c : Nat), m2.ref[k]? = some c → c = 0 := by
     intro k c hk
-    rw [c2 k] at hk
+    rw [c2 k, indeg_zero_of_no_nodes m2.tbl hnone k] at hk
     split at hk
-    · next hm =>
-      have : indeg m2.tbl k = 0 := by
-        cases hd : indeg m2.tbl k with
-        | zero => rfl
-        | succ j =>
-          obtain ⟨i, p, hp, _⟩ := indeg_pos m2.tbl k (by omega)
-          have : m2.tbl.node? i = some p := hp
-          rw [hnone i] at this; cases this
-      rw [this] at hk
-      cases hk; rfl
+    · cases hk; rfl
     · cases hk
   refine ⟨m2, ?_, hnone, hzero⟩
   have hany : (m2.ref.toList.any (fun (kv : Nat × Nat) => kv.2 != 0)) = false := by
@@ -928,15 +958,14 @@ theorem autoref_shutdown_of_gcSpec (gs : GcSpec) (a : AMgr) (hi : AInv a)
   unfold shutdown
   change M.bind' (refOf 1) _ a.m = _
   unfold M.bind'
-  have hrefOf : refOf 1 a.m = (.ok (indeg a.m.tbl 1 + 1), a.m) := by
-    unfold refOf; rw [h1, hr1]
+  have hrefOf : refOf 1 a.m = (.ok (indeg a.m.tbl 1 + 1), a.m) := refOf_eq a.m 1 _ hr1
   rw [hrefOf]
   simp only
   change M.bind' (if indeg a.m.tbl 1 + 1 > 0 then decref 1 else pure ()) _ a.m = _
   unfold M.bind'
   rw [if_pos (by omega), hd]
   simp only
-  change M.bind' (collectGarbage none) _ m1 = _
+  change M.bind' (collectGarbage none) _ _ = _
   unfold M.bind'
   rw [hg]
   simp only
